@@ -28,6 +28,7 @@ RULE = (
     "ciphertext bytes (incl. first/last), of every tag byte and of the associated data raises and returns nothing; "
     "KeyStore.from_text(t).key == PBKDF2-HMAC-SHA256(data1||salt, data2, 100000), .id == UUID(keyId), stable over repeated "
     "parses. Non-trivial = >= 1 extra attribute and a payload length that is not a multiple of 16."
+    ' Nonce lengths 1, 8, 12, 13, 16 and 32 bytes.'
 )
 ASSUMPTIONS = [
     "bytes the format never authenticates are outside the tamper domain: header pad and size field, the two reserved bytes of each "
